@@ -748,6 +748,24 @@ def _const_truth(t):
     return None
 
 
+def _simplify_under(e, conds):
+    """conditional expressions whose test was already decided on the path take the decided arm"""
+    known = {}
+    for t, v in conds:
+        t, v = _fold_not(t, v)
+        known[src(t)] = v
+
+    class S(ast.NodeTransformer):
+        def visit_IfExp(self, n):
+            self.generic_visit(n)
+            t, v = _fold_not(n.test, True)
+            k = known.get(src(t))
+            if k is None:
+                return n
+            return n.body if k == v else n.orelse
+    return S().visit(_clone_expr(e))
+
+
 def sym_cases(fn, target, limit=256, tables=None):
     """symbolic evaluation of the straight-line / if structure of fn up to the statement that holds the expression `target`:
     [(conditions [(expression, truth)], value of target)] with every local written in terms of the function's inputs
@@ -773,7 +791,7 @@ def sym_cases(fn, target, limit=256, tables=None):
         s, rest = todo[0], todo[1:]
         if s is stop or contains(s, target) and not isinstance(s, (ast.If,)):
             for c, leaf in split(sub(target, env)):
-                out.append((conds + c, leaf))
+                out.append((conds + c, _simplify_under(leaf, conds + c)))
             return
         if isinstance(s, ast.If):
             t = sub(s.test, env)
@@ -821,6 +839,13 @@ def sym_cases(fn, target, limit=256, tables=None):
                 new = dict(env)
                 for t_, v_ in zip(s.targets[0].elts, val.elts):
                     new[t_.id] = v_
+                go(rest, conds, new)
+                return
+            if isinstance(val, ast.Call):
+                # the elements of what a call returns: <call>[0], <call>[1], ...
+                new = dict(env)
+                for i_, t_ in enumerate(s.targets[0].elts):
+                    new[t_.id] = ast.Subscript(value=val, slice=ast.Constant(value=i_), ctx=ast.Load())
                 go(rest, conds, new)
                 return
         if isinstance(s, ast.AugAssign) and isinstance(s.target, ast.Name):
